@@ -105,6 +105,8 @@ class ConvexSpheropolygon(Shape2D):
             scale (float):
                 Scale factor.
         """
+        if not scale > 0:
+            raise ValueError("Shapes can only be rescaled by a factor greater than zero.")
         self.polygon._vertices *= scale
         self.radius *= scale
 
